@@ -204,5 +204,34 @@ func TestVerifReplay_C06(t *testing.T) {
 			}
 		}
 	}
+	// an IQ request that carries the id of one of our own pending requests is still a request: routed or answered
+	// with feature-not-implemented, never handed to the pending request
+	for _, typ := range []stanza.StanzaType{stanza.IQTypeGet, stanza.IQTypeSet} {
+		for _, withRoute := range []bool{false, true} {
+			cases++
+			router := NewRouter()
+			handled := 0
+			if withRoute {
+				router.NewRoute().Packet("iq").HandlerFunc(func(Sender, stanza.Packet) { handled++ })
+			}
+			ctx, cancel := context.WithCancel(context.Background())
+			pending := router.NewIQResultRoute(ctx, "same-id")
+			snd := &c06sender{}
+			req, _ := stanza.NewIQ(stanza.Attrs{Type: typ, Id: "same-id", From: "peer@d/r", To: "me@d/r"})
+			router.route(snd, req)
+			select {
+			case got := <-pending:
+				report("an IQ %s with the id of a pending request was delivered as its response (type %q)", typ, got.Type)
+			default:
+			}
+			if withRoute && handled != 1 {
+				report("an IQ %s with the id of a pending request: the matching route ran %d times, want 1", typ, handled)
+			}
+			if !withRoute && len(snd.sent) != 1 {
+				report("an IQ %s with the id of a pending request and no route: %d replies, want one feature-not-implemented", typ, len(snd.sent))
+			}
+			cancel()
+		}
+	}
 	fmt.Printf("REPLAY-CASES: %d\n", cases)
 }
